@@ -130,14 +130,23 @@ class VLoop(base_events.BaseEventLoop):
             self.close()
 
 
+class InjectedSendError(OSError):
+    """a transmission the harness lets fail (after recording it): what was queued for later must still go out"""
+
+
 class FakeTransport:
     def __init__(self, on_send, sockname=("192.0.2.100", 30490)):
         self.on_send = on_send
         self.sockname = sockname
         self.closed = False
+        self.fail = set()       # indexes (0, 1, ...) of sendto calls that raise after having been recorded
+        self.sends = 0
 
     def sendto(self, data, addr=None):
         self.on_send(bytes(data), addr)
+        self.sends += 1
+        if self.sends - 1 in self.fail:
+            raise InjectedSendError("injected transmission failure")
 
     def get_extra_info(self, key, default=None):
         if key == "sockname":
